@@ -2,6 +2,6 @@
 # regenerate claims files from the current (unchanged) tree; review the diff before committing
 cd /verif
 for p in "$@"; do
-  level=proof; case "$p" in C07|C10|C15|C16|C20) level=other;; esac
+  level=proof; case "$p" in C07|C09|C10|C15|C16|C20) level=other;; esac
   /usr/bin/time -f "$p wall %es" ./bin/govc check -property $p -level $level -update-claims 2>&1 | grep -v "^wrote" | tail -6
 done
